@@ -427,7 +427,10 @@ pub fn run_c10(ctx: &mut Ctx) -> Result<(), String> {
         classes.truncate(rng.random_range(4..=10));
         // directed: every class gets its own run now and then
         if i % 3 == 0 {
-            classes = vec![crate::hostile::CLASSES[(i as usize / 3 + ctx.shard * 7) % crate::hostile::CLASSES.len()]];
+            // three neighbouring classes per directed run: one quick run (16 shards) covers every class
+            let all = crate::hostile::CLASSES;
+            let k = 3 * ((i as usize / 3) * ctx.nshards + ctx.shard) + ctx.seed as usize;
+            classes = (0..3).map(|j| all[(k + j) % all.len()]).collect();
         }
         cfg.hostile = Some((Duration::from_secs(2), hostile_end, classes));
         // a quarter of the runs start with an asynchronous period (lagging leaders, late finalizations)
